@@ -633,33 +633,54 @@ prop("C07",
                               "execution (pyopencl)"])
 
 prop("C08",
-     level="translation_validation",
+     level="exploration",
      level_text=(
-         "PARTIAL claim, value part only: for every listed multi-rank program "
-         "the partition returned by the real find_distributed_partition "
-         "(interpreted on every rank) is wired together -- received names to "
-         "the data of the matching send, part-output names to their "
-         "expressions -- and proved (z3) to denote, for all inputs and "
-         "indices, what the unpartitioned global data-flow graph denotes; "
-         "together with C09's proof that the global part graph (local order + "
-         "messages) is acyclic this is schedule-independent faithfulness of "
-         "the *values*."),
+         "Two contracts over the listed multi-rank programs. (1) "
+         "exec.schedules: the real execute_distributed_partition is "
+         "interpreted per rank while MPI.Request.Waitsome returns every "
+         "non-empty subset of the pending receives that message passing "
+         "permits to have arrived (a message can arrive once the local sends "
+         "among the causal ancestors of its send are posted); on EVERY such "
+         "schedule the call returns, raises nothing (a KeyError would be a "
+         "value read before it is produced or after it is released; the "
+         "executor's final reference-count asserts are live), executes every "
+         "part once, posts exactly the right payloads and returns the "
+         "outputs of the unpartitioned evaluation. (2) dist.find.value "
+         "(translation validation): the partition returned by the real "
+         "find_distributed_partition, wired together by its messages and "
+         "part-output names, denotes for ALL inputs what the unpartitioned "
+         "global data-flow graph denotes."),
      level_note=(
-         "NOT decided: termination under every message-arrival order, the "
-         "executor's readiness test / Waitsome loop / reference-count "
-         "release (pytato/distributed/execute.py needs MPI requests and "
-         "pyopencl; its main loop is a liveness + cardinality argument "
-         "outside per-function contracts, DESIGN §7). Programs are listed."),
-     technique="contract-based translation validation: denotation of the "
-               "partition produced by the real partitioner vs. denotation of "
-               "the source graphs, z3",
-     design_ref="DESIGN.md §12 (C08)",
-     explanation="see contracts/c09_partition.py (value_preserved) and "
-                 "pyvc/dist_programs.py (global_original/global_partitioned)",
-     structural_bound="10 program shapes x 2..3 ranks x 2 ways of attaching "
-                      "sends",
-     trusted_base=["fake MPI collectives (pyvc/fakempi.py)",
+         "Exhaustive over schedules per rank, bounded in programs (10 shapes "
+         "x 2..3 ranks). Assume/guarantee across ranks: each rank is checked "
+         "against the same contract of the others (they post what the global "
+         "graph says, eventually) -- together with C09's acyclic global part "
+         "graph this gives termination; the composition argument itself is "
+         "on paper (DESIGN 12.4). MPI, pyopencl.array.to_device and the "
+         "per-part programs are replaced by contracts; their real "
+         "implementations are not exercised."),
+     evaluation_rule=(
+         "one evaluation = one interpreted execution of the executor for one "
+         "rank of one program under one complete choice of arrival subsets "
+         "(all choices enumerated by path forks, hence distinct), or one "
+         "partition/program pair for the value contract; non-trivial = it "
+         "generated at least one obligation"),
+     technique="contract-based: postconditions of the real executor checked "
+               "by interpretation under an adversarial scheduler contract "
+               "(exhaustive over permitted arrival orders); translation "
+               "validation of the partition's values with z3",
+     design_ref="DESIGN.md §12.4 (C08)",
+     explanation="see contracts/c08_executor.py and contracts/"
+                 "c09_partition.py (value_preserved)",
+     structural_bound="10 program shapes x 2..3 ranks; every rank; every "
+                      "permitted sequence of arrival subsets",
+     trusted_base=["MPI contract (fake communicator, Waitsome as adversary)",
+                   "per-part programs = NumPy evaluation of the part's "
+                   "expressions (pyvc/replaylib.eval_array)",
                    "index-lambda semantics (pyvc/den.py)"],
-     assumptions=["MPI delivers each message to the matching receive"],
-     unverified_surroundings=["pytato/distributed/execute.py", "mpi4py",
-                              "pyopencl"])
+     assumptions=["every posted message is eventually delivered to the "
+                  "matching receive, and only then",
+                  "other ranks satisfy the same contract (assume/guarantee)"],
+     unverified_surroundings=["mpi4py", "pyopencl",
+                              "generate_code_for_partition / loopy execution "
+                              "of the parts"])
